@@ -335,12 +335,34 @@ func (p *Program) BuildSummaries() {
 		}
 		s.All = s.dynAll
 	}
+	// Modular frames: a callee with an assigns clause is represented, in its callers' summaries, by that clause
+	// (checked against the callee's own body by the frame obligation, or assumed and listed when the callee is trusted).
+	framed := map[*ssa.Function]*Summary{}
+	for _, fn := range p.AllFuncs {
+		c := p.Contract(fn)
+		if c == nil || len(c.Assigns) == 0 {
+			continue
+		}
+		fs := &Summary{Writes: map[string]bool{}}
+		for _, a := range c.Assigns {
+			if a == "nothing" {
+				continue
+			}
+			for _, k := range p.assignKeys(c.Pkg, a) {
+				fs.Writes[k] = true
+			}
+		}
+		framed[fn] = fs
+	}
 	for changed {
 		changed = false
 		for _, fn := range p.AllFuncs {
 			s := p.Summ[fn]
 			for _, c := range s.calls {
 				cs := p.Summ[c]
+				if f, ok := framed[c]; ok {
+					cs = f
+				}
 				if cs == nil {
 					continue
 				}
